@@ -64,10 +64,10 @@ package parser
 
 //@ pred visitorOK(v *PacketDslVisitorImpl) := v != nil && model.modelOK(v.BinModel) && model.metaWF(v.BinModel)
 
-//@ pred attrOK(a model.FieldAttribute) := model.attrKind(a) && (typeis(a, *model.FixedStringFieldAttribute) ==> 0 <= unbox(a, *model.FixedStringFieldAttribute).Length && unbox(a, *model.FixedStringFieldAttribute).Length <= 16777216) && (typeis(a, *model.MatchFieldAttribute) ==> len(unbox(a, *model.MatchFieldAttribute).MatchPairs) >= 1) && (typeis(a, *model.LengthFieldAttribute) ==> unbox(a, *model.LengthFieldAttribute).TragetField != nil) && (typeis(a, *model.MatchFieldAttribute) ==> unbox(a, *model.MatchFieldAttribute).MatchKeyField != nil) && (typeis(a, *model.ObjectFieldAttribute) ==> (unbox(a, *model.ObjectFieldAttribute).IsIner ==> unbox(a, *model.ObjectFieldAttribute).RefPacket != nil))
+//@ pred attrOK(a model.FieldAttribute) := model.attrKind(a) && (typeis(a, *model.FixedStringFieldAttribute) ==> 0 <= unbox(a, *model.FixedStringFieldAttribute).Length && unbox(a, *model.FixedStringFieldAttribute).Length <= 16777216) && (typeis(a, *model.MatchFieldAttribute) ==> len(unbox(a, *model.MatchFieldAttribute).MatchPairs) >= 1) && (typeis(a, *model.LengthFieldAttribute) ==> unbox(a, *model.LengthFieldAttribute).TragetField != nil) && (typeis(a, *model.MatchFieldAttribute) ==> unbox(a, *model.MatchFieldAttribute).MatchKeyField != nil) && (typeis(a, *model.ObjectFieldAttribute) ==> (unbox(a, *model.ObjectFieldAttribute).IsIner ==> unbox(a, *model.ObjectFieldAttribute).RefPacket != nil)) && (typeis(a, *model.ObjectFieldAttribute) ==> istokentext(unbox(a, *model.ObjectFieldAttribute).PacketName))
 //@ pred freshObj(x *model.Field) := fresh(x) && allocated(x)
 //@ pred freshAttr(a model.FieldAttribute) := (typeis(a, *model.ObjectFieldAttribute) ==> fresh(unbox(a, *model.ObjectFieldAttribute)) && allocated(unbox(a, *model.ObjectFieldAttribute))) && (typeis(a, *model.MatchFieldAttribute) ==> fresh(unbox(a, *model.MatchFieldAttribute)) && allocated(unbox(a, *model.MatchFieldAttribute))) && (typeis(a, *model.LengthFieldAttribute) ==> fresh(unbox(a, *model.LengthFieldAttribute)) && allocated(unbox(a, *model.LengthFieldAttribute)))
-//@ pred fieldOK(f *model.Field) := f != nil && fresh(f) && allocated(f) && attrOK(f.Attr) && freshAttr(f.Attr)
+//@ pred fieldOK(f *model.Field) := f != nil && fresh(f) && allocated(f) && attrOK(f.Attr) && freshAttr(f.Attr) && istokentext(f.Name)
 //@ pred isField(r interface{}) := typeis(r, *model.Field) && fieldOK(unbox(r, *model.Field))
 
 //@ methods (*PacketDslVisitorImpl)
@@ -98,6 +98,7 @@ package parser
 
 //@ func (*PacketDslVisitorImpl).VisitPacketDefinition
 //@   ensures typeis(result, *model.Packet) && unbox(result, *model.Packet) != nil && model.fieldsNonNil(unbox(result, *model.Packet))
+//@   ensures [C08:names-are-token-texts] istokentext(unbox(result, *model.Packet).Name)
 //@   ensures [C12:D7-field-names-distinct] forall(i, 0, len(unbox(result, *model.Packet).Fields), forall(j, 0, i, unbox(result, *model.Packet).Fields[i].Name != unbox(result, *model.Packet).Fields[j].Name))
 //@   loop 0 invariant forall(i, 0, len(fields), haskey(fieldMap, fields[i].Name))
 //@   loop 0 invariant forall(i, 0, len(fields), forall(j, 0, i, fields[i].Name != fields[j].Name))
